@@ -149,10 +149,15 @@ def _run_task(t):
         import traceback
         tb = traceback.extract_tb(e.__traceback__)
         src = os.path.realpath(os.environ.get("VERIF_REPO", "/repo"))
-        inner = tb[-1]
-        if not os.path.realpath(inner.filename).startswith(src + os.sep):
+        # the exception counts as the library's if, below the last harness frame, it passed through a frame of the code
+        # under test (the innermost frame may belong to numpy or the standard library called from there)
+        root = os.path.realpath(ROOT) + os.sep
+        last_mine = max([i for i, f in enumerate(tb) if os.path.realpath(f.filename).startswith(root)] or [-1])
+        lib = [f for f in tb[last_mine + 1:] if os.path.realpath(f.filename).startswith(src + os.sep)]
+        if not lib:
             raise
-        mine = [f for f in tb if not os.path.realpath(f.filename).startswith(src + os.sep)]
+        inner = lib[-1]
+        mine = [f for f in tb[:last_mine + 1]]
         sig = "code_under_test_raises:%s:in_%s:called_from_%s" % (type(e).__name__, inner.name, mine[-1].name if mine else "?")
         res = {"n": 1, "viols": [(sig, {"kind": "__crash__", "where": "%s:%d" % (os.path.basename(inner.filename), inner.lineno or 0), "message": str(e)[:200]})],
                "vcount": {sig: 1}, "out": set(), "c": {}, "samples": [], "cov": {}}
